@@ -38,12 +38,17 @@ _SUB = {}
 
 
 def _node_class(name):
-    """DAGNode itself or a user subclass of it (extra class attribute, extra method, own __init__ passing through)"""
+    """DAGNode itself or a user subclass of it:
+       Sub       extra class attribute, extra method, own __init__ passing through
+       Falsy     __len__ = number of children (a childless node is falsy)            [C17 only, see partial_clauses]
+       ValueEq   __eq__ / __hash__ by name (used with distinct names only)
+       Defaults  a class-level default `step = 7` (overridden on the instances that have their own `step`) and a
+                 read-only property `label`; get_attr must resolve both"""
     from bigtree.node.dagnode import DAGNode
 
     if name == "DAGNode":
         return DAGNode
-    if "Sub" not in _SUB:
+    if not _SUB:
         class SubDAGNode(DAGNode):
             kind = "sub"
 
@@ -53,8 +58,37 @@ def _node_class(name):
             def shout(self):
                 return self.node_name.upper()
 
-        _SUB["Sub"] = SubDAGNode
-    return _SUB["Sub"]
+        class FalsyDAGNode(DAGNode):
+            def __len__(self):
+                return len(self.children)
+
+        class ValueEqDAGNode(DAGNode):
+            def __eq__(self, other):
+                return isinstance(other, DAGNode) and other.node_name == self.node_name
+
+            def __hash__(self):
+                return hash(self.node_name)
+
+        class DefaultsDAGNode(DAGNode):
+            step = 7
+
+            @property
+            def label(self):
+                return "L:" + self.node_name
+
+        _SUB.update(Sub=SubDAGNode, Falsy=FalsyDAGNode, ValueEq=ValueEqDAGNode, Defaults=DefaultsDAGNode)
+    return _SUB[name]
+
+
+def _model_attrs(case):
+    """the attributes the exporters can see on node i: for an attr_dict export get_attr also resolves what the class
+    provides (class-level default, property); describe() (all_attrs) only lists the instance attributes"""
+    out = [dict(a) for a in case["attrs"]]
+    if case.get("cls") == "Defaults" and case.get("kind") == "export" and case.get("mode") not in ("all", "all+dict"):
+        for i, a in enumerate(out):
+            a.setdefault("step", 7)
+            a["label"] = "L:" + case["names"][i]
+    return out
 
 
 def _container(items, cont):
@@ -63,6 +97,12 @@ def _container(items, cont):
         return tuple(items)
     if cont == "gen":
         return (x for x in items)
+    if cont == "map":
+        return map(lambda x: x, items)
+    if cont == "iter":
+        return iter(list(items))
+    if cont == "set":
+        return set(items)
     if cont == "dictvalues":
         return {i: x for i, x in enumerate(items)}.values()
     return list(items)
@@ -78,8 +118,11 @@ class _Builder:
       ["CS", [p1, p2..], [c..], mut]   the SAME list object assigned as children of p1, p2, ...
       ["NP", c, [p..], mut]     DAGNode(name, parents=lst) when node c does not exist yet (else like "P")
       ["NC", p, [c..], mut]     DAGNode(name, children=lst) when node p does not exist yet (else like "C")
+      ["FP", c, [p..], mut] / ["FC", p, [c..], mut]   DAGNode.from_dict({"name":.., "parents"/"children": lst}) likewise
       ["R", p, c]  p >> c       ["L", c, p]  c << p       ["D", p]  del p.children
-    "C"/"NC" take an optional 5th field: the iterable type handed to the children setter (list | tuple | gen | dictvalues).
+    "C"/"NC"/"FC" take an optional 5th field: the iterable handed over as children (list | tuple | set | dictvalues, or a
+    one-shot iterable: gen | map | iter).  The builder keeps the links the steps are MEANT to produce; check_links()
+    compares them with what the node objects of the case hold (by object identity).
     mut: what the harness does to ITS list object after the assignment: "none" | "clear" | "rev" | ["append", k]
     (a correct implementation never keeps the caller's list, so this changes nothing)."""
 
@@ -87,6 +130,46 @@ class _Builder:
         self.cls = _node_class(case.get("cls", "DAGNode"))
         self.case = case
         self.nodes = [None] * case["n"]
+        self.want_par = [[] for _ in range(case["n"])]      # the links the listed steps are meant to produce
+        self.want_kid = [[] for _ in range(case["n"])]
+
+    def _link(self, p, c):
+        if p not in self.want_par[c]:
+            self.want_par[c].append(p)
+            self.want_kid[p].append(c)
+
+    def intend(self, op):
+        k = op[0]
+        if k in ("P", "NP", "FP"):
+            for p in op[2]:
+                self._link(p, op[1])
+        elif k in ("C", "NC", "FC"):
+            for c in op[2]:
+                self._link(op[1], c)
+        elif k == "PS":
+            for c in op[1]:
+                for p in op[2]:
+                    self._link(p, c)
+        elif k == "CS":
+            for p in op[1]:
+                for c in op[2]:
+                    self._link(p, c)
+        elif k == "R":
+            self._link(op[1], op[2])
+        elif k == "L":
+            self._link(op[2], op[1])
+        elif k == "D":
+            for c in self.want_kid[op[1]]:
+                self.want_par[c].remove(op[1])
+            self.want_kid[op[1]] = []
+
+    def check_links(self):
+        """the node OBJECTS of the case must hold exactly the intended links, in insertion order"""
+        got = _links(self.all_nodes())
+        want = [[self.want_par[i], self.want_kid[i]] for i in range(self.case["n"])]
+        if got != want:
+            raise RuntimeError(f"the node objects do not hold the intended links: got {got}, intended {want}")
+        return got
 
     def node(self, i):
         if self.nodes[i] is None:
@@ -105,21 +188,28 @@ class _Builder:
             lst.append(self.node(mut[1]))
 
     def step(self, op):
+        self.intend(op)
         k = op[0]
         mut = op[3] if len(op) > 3 else "none"
-        if k in ("P", "NP"):
+        if k in ("P", "NP", "FP"):
             lst = [self.node(p) for p in op[2]]
             if k == "NP" and self.nodes[op[1]] is None:
                 self.nodes[op[1]] = self.cls(self.case["names"][op[1]], parents=lst, **self.case["attrs"][op[1]])
+            elif k == "FP" and self.nodes[op[1]] is None:
+                self.nodes[op[1]] = self.cls.from_dict({"name": self.case["names"][op[1]], "parents": lst,
+                                                        **self.case["attrs"][op[1]]})
             else:
                 self.node(op[1]).parents = lst
             self._mutate(lst, mut)
-        elif k in ("C", "NC"):
+        elif k in ("C", "NC", "FC"):
             lst = _container([self.node(c) for c in op[2]], op[4] if len(op) > 4 else "list")
             if not isinstance(lst, list):
                 mut = "none"
             if k == "NC" and self.nodes[op[1]] is None:
                 self.nodes[op[1]] = self.cls(self.case["names"][op[1]], children=lst, **self.case["attrs"][op[1]])
+            elif k == "FC" and self.nodes[op[1]] is None:
+                self.nodes[op[1]] = self.cls.from_dict({"name": self.case["names"][op[1]], "children": lst,
+                                                        **self.case["attrs"][op[1]]})
             else:
                 self.node(op[1]).children = lst
             self._mutate(lst, mut)
@@ -144,10 +234,11 @@ class _Builder:
 
 
 def _build(case):
-    """Perform all listed link insertions; returns the node objects."""
+    """Perform all listed link insertions; returns the node objects (which must hold the intended links)."""
     bld = _Builder(case)
     for op in case["ops"]:
         bld.step(op)
+    bld.check_links()
     return bld.all_nodes()
 
 
@@ -243,7 +334,13 @@ def _observe16(nodes):
 
 def _links(nodes):
     idx = {id(n): i for i, n in enumerate(nodes)}
-    return [[[idx[id(p)] for p in n.parents], [idx[id(c)] for c in n.children]] for n in nodes]
+
+    def ix(x):
+        if id(x) not in idx:
+            raise RuntimeError(f"a node of the case is linked to an object that is not a node of the case (a look-alike {x!r})")
+        return idx[id(x)]
+
+    return [[[ix(p) for p in n.parents], [ix(c) for c in n.children]] for n in nodes]
 
 
 def _pv(v):
@@ -330,7 +427,9 @@ def run_impl(prop, case):
         for k, op in enumerate(case["ops"]):
             bld.step(op)
             if k in cps and k != len(case["ops"]) - 1:
+                bld.check_links()
                 snaps.append(_observe16(bld.all_nodes()))
+        bld.check_links()
         snaps.append(_observe16(bld.all_nodes()))
         return {"snaps": snaps}
 
@@ -353,7 +452,7 @@ def run_impl(prop, case):
             raise RuntimeError("a rebuilt node is not an instance of the requested node_type")
         r.pop("_all_instances", None)
         roots[fn.__name__] = r.pop("_root", None)
-        other = {"node_type": _node_class("Sub")} if not nt else {}
+        other = {"node_type": _node_class("Falsy")} if case.get("cls") != "Falsy" else {}
         r2 = _rebuild(fn, *args, **kw, **other)
         for k in ("_all_instances", "_root"):
             r2.pop(k, None)
@@ -494,7 +593,7 @@ def run_impl(prop, case):
             got = fold(None, canon_dict(dag_to_dict(roots["dict_to_dag"], **{**dkw, **rkw})), None)
             if got[1] != want[1]:
                 raise RuntimeError("dag_to_dict of the DAG rebuilt by dict_to_dag differs from the first export")
-        if rdf["code"] == 0:
+        if rdf["code"] == 0 and case.get("cls") != "Defaults":      # a frame drops None cells; the class default would show again
             got = fold(None, None, canon_df(dag_to_dataframe(roots["dataframe_to_dag"], **{**fkw, **rkw})))
             if got[2] != want[2]:
                 raise RuntimeError("dag_to_dataframe of the DAG rebuilt by dataframe_to_dag differs from the first export")
@@ -582,7 +681,7 @@ def cids(l):
 def cdag(case, links):
     assert len(links) == case["n"]
     return clist(
-        f"DN {cstr(case['names'][i])} {cattrs(sorted(case['attrs'][i].items()))} {cids(links[i][0])} {cids(links[i][1])}"
+        f"DN {cstr(case['names'][i])} {cattrs(sorted(_model_attrs(case)[i].items()))} {cids(links[i][0])} {cids(links[i][1])}"
         for i in range(case["n"]))
 
 
@@ -699,8 +798,8 @@ def _ops_from_edges(rng, edges, style=None, n=None, max_checkpoints=0):
 
     while remaining:
         p, c = remaining[0]
-        st = style or rng.choice(["R", "L", "P", "C", "P", "C", "PS", "CS", "NP", "NC"])
-        if st in ("P", "NP", "PS"):
+        st = style or rng.choice(["R", "L", "P", "C", "P", "C", "PS", "CS", "NP", "NC", "FP", "FC"])
+        if st in ("P", "NP", "PS", "FP"):
             others = [e[0] for e in remaining[1:] if e[1] == c]
             rng.shuffle(others)
             ps = [p] + others[: rng.randint(0, len(others))]
@@ -723,10 +822,10 @@ def _ops_from_edges(rng, edges, style=None, n=None, max_checkpoints=0):
                 created.update(targets + ps)
             else:
                 take(lambda e: e[1] == c and e[0] in ps)
-                kind = "NP" if (st == "NP" and c not in created) else "P"
+                kind = st if (st in ("NP", "FP") and c not in created) else "P"
                 ops.append([kind, c, ps, _mut(rng, n) if style is None else "none"])
                 created.update([c] + ps)
-        elif st in ("C", "NC", "CS"):
+        elif st in ("C", "NC", "CS", "FC"):
             others = [e[1] for e in remaining[1:] if e[0] == p]
             rng.shuffle(others)
             cs = [c] + others[: rng.randint(0, len(others))]
@@ -749,10 +848,10 @@ def _ops_from_edges(rng, edges, style=None, n=None, max_checkpoints=0):
                 created.update(sources + cs)
             else:
                 take(lambda e: e[0] == p and e[1] in cs)
-                kind = "NC" if (st == "NC" and p not in created) else "C"
+                kind = st if (st in ("NC", "FC") and p not in created) else "C"
                 op = [kind, p, cs, _mut(rng, n) if style is None else "none"]
-                if style is None and rng.random() < 0.4:
-                    op.append(rng.choice(["tuple", "gen", "dictvalues"]))
+                if style is None and rng.random() < 0.5:
+                    op.append(rng.choice(["tuple", "gen", "map", "iter", "dictvalues"] + (["set"] if len(cs) == 1 else [])))
                 ops.append(op)
                 created.update([p] + cs)
         elif st == "R":
@@ -877,6 +976,16 @@ def _attrs(rng, n, style):
     return out
 
 
+def _pick_cls(rng, distinct, falsy_ok):
+    """node class of a case: ValueEq only with distinct names (equal names make distinct nodes compare equal, which is
+    outside the properties' 'distinct names'), Falsy only where the unchanged library is well defined for it (C17)"""
+    r = rng.random()
+    if r < 0.5:
+        return "DAGNode"
+    pool = ["Sub", "Defaults"] + (["ValueEq"] if distinct else []) + (["Falsy", "Falsy"] if falsy_ok else [])
+    return rng.choice(pool)
+
+
 def gen_dag(rng, nmax=7, nmin=2, pools=("distinct", "distinct", "affix", "special", "repeated"), attr_style="none",
             with_del=True, max_checkpoints=2):
     n = rng.randint(nmin, nmax)
@@ -908,7 +1017,8 @@ def gen_dag(rng, nmax=7, nmin=2, pools=("distinct", "distinct", "affix", "specia
         ops += more
     cps = sorted(set(k for k in cps if 0 <= k < len(ops) - 1))
     return {"kind": "dag", "n": n, "names": _names(rng, n, pool_name), "attrs": _attrs(rng, n, attr_style),
-            "ops": ops, "checkpoints": cps, "cls": "Sub" if rng.random() < 0.25 else "DAGNode",
+            "ops": ops, "checkpoints": cps,
+            "cls": _pick_cls(rng, distinct=(pool_name != "repeated"), falsy_ok=False),
             "stratum": f"{shape}/{pool_name}"}
 
 
@@ -950,7 +1060,7 @@ def _mode(rng, attr_style, attrs=None):
         return "all+dict"
     keys = [k for k in ATTR_KEYS if rng.random() < 0.7] or ["tag"]
     rng.shuffle(keys)
-    ren = {"step": "step no", "tag": "label", "w": "w", "flag": "is flag?"}
+    ren = {"step": "step no", "tag": "tag label", "w": "w", "flag": "is flag?"}
     return [[k, (ren[k] if rng.random() < 0.5 else k)] for k in keys]
 
 
@@ -986,7 +1096,9 @@ def gen_raw(rng):
     if rng.random() < 0.25 and rel:
         rel.insert(rng.randint(0, len(rel)), list(rng.choice(rel)))      # a repeated relation
     table = {nm: {"tag": rng.choice(["x", "y"]), "step": rng.randint(0, 2)} for nm in pool}
-    cls = "Sub" if rng.random() < 0.25 else "DAGNode"
+    cls = _pick_cls(rng, distinct=True, falsy_ok=True)
+    if cls == "Defaults":
+        cls = "Falsy"
     if kind == "rawlist":
         return label, {"kind": "rawlist", "rel": rel, "opt": _opt(rng, "rawlist"), "cls": cls, "stratum": "rawlist/" + label}
     if kind == "rawdict":
@@ -1123,7 +1235,13 @@ def _export_case(rng, dag, attr_style):
     c = dict(dag)
     c["kind"] = "export"
     c["start"] = rng.randrange(c["n"])
+    c["cls"] = _pick_cls(rng, distinct=True, falsy_ok=True)
     c["mode"] = _mode(rng, attr_style, c["attrs"])
+    if c["cls"] == "Defaults" and rng.random() < 0.8:
+        # ask for what the class provides: the class-level default `step` and the property `label`
+        c["mode"] = [["step", rng.choice(["step", "step no"])], ["label", rng.choice(["label", "lbl"])]] + \
+                    ([m for m in c["mode"] if m[0] not in ("step", "label") and m[1] not in ("step", "step no", "label", "lbl")]
+                     if isinstance(c["mode"], list) else [])
     c["opt"] = _opt(rng, "export")
     c["perm"] = rng.randint(1, 10 ** 6) if rng.random() < 0.5 else 0
     return c
@@ -1244,7 +1362,7 @@ def generate(prop, rng, tier):
 
 
 def _op_ids(o):
-    if o[0] in ("P", "C", "NP", "NC"):
+    if o[0] in ("P", "C", "NP", "NC", "FP", "FC"):
         return [o[1]] + list(o[2]) + (list(o[3][1:]) if len(o) > 3 and isinstance(o[3], list) else [])
     if o[0] in ("PS", "CS"):
         return list(o[1]) + list(o[2]) + (list(o[3][1:]) if len(o) > 3 and isinstance(o[3], list) else [])
@@ -1294,7 +1412,7 @@ def shrink_candidates(prop, case):
             c["checkpoints"] = [x for x in case["checkpoints"] if x != q]
             yield c
         for k, o in enumerate(ops):
-            if o[0] in ("P", "C", "NP", "NC", "PS", "CS"):
+            if o[0] in ("P", "C", "NP", "NC", "FP", "FC", "PS", "CS"):
                 mut = o[3] if len(o) > 3 else "none"
                 if len(o[2]) > 1:
                     for j in range(len(o[2])):
@@ -1303,7 +1421,7 @@ def shrink_candidates(prop, case):
                     yield _with_op(case, k, [o[0], o[1], o[2], "none"] + o[4:])
                 if len(o) > 4:
                     yield _with_op(case, k, [o[0], o[1], o[2], mut])
-                if o[0] in ("NP", "NC"):
+                if o[0] in ("NP", "NC", "FP", "FC"):
                     yield _with_op(case, k, [o[0][1], o[1], o[2], mut] + o[4:])
                 if o[0] in ("PS", "CS") and len(o[1]) > 1:
                     for j in range(len(o[1])):
@@ -1387,12 +1505,16 @@ def rule(prop):
                 "every acyclic edge set on <= 3 (quick) / <= 4 (thorough) "
                 "nodes in several insertion orders + random shapes sparse/mixed/dense/chain/fan-in/fan-out/diamond x name pools "
                 "distinct/affix/special/repeated; observed from every start node and every ordered pair; "
-                "node class DAGNode or a user subclass; children handed over as list / tuple / generator / dict view; per snapshot "
+                "plus DAGNode.from_dict with parents / children lists of existing nodes; node class DAGNode or a user subclass (plain, "
+                "class defaults + property, value equality by name); children handed over as list / tuple / set / dict view or a "
+                "one-shot iterable (generator, map, iter); the node objects of the case must hold exactly the intended links "
+                "(shadow kept by the harness, compared by object identity) at every checkpoint; per snapshot "
                 "all results (every start node, every ordered pair) are kept alive and read only after the last query, then the "
                 "caller's lists are emptied and every query is repeated and must agree; links must be unchanged by the queries, "
                 "iterators advanced in turn must agree with separate runs; "
                 "non-trivial = >= 3 nodes and >= 2 edges; distinct by canonical JSON hash")
-    return ("export cases: the same DAG families (every entry point, DAGNode or a subclass passed as node_type) with attribute "
+    return ("export cases: the same DAG families (every entry point; node class / node_type DAGNode, a plain subclass, a subclass "
+            "with falsy childless instances, value equality by name, class-level default + property resolved by get_attr) with attribute "
             "assignments total / partial / none / falsy (0, '', False, explicit None) / odd attribute NAMES (one letter, affixes and "
             "substrings and superstrings of name / parents / children / path, blanks and other non-identifier characters, under "
             "all_attrs and as attr_dict keys and targets), any start node, an attribute selection "
@@ -1422,6 +1544,10 @@ def partial_clauses(prop):
             "not compared (the property does not speak about it): the ORDER of the yielded pairs / ancestors / descendants / "
             "siblings / paths (multisets are compared), the container type returned (tuple vs list), which exception class "
             "go_to refuses with (any exception counts as refusal), go_to with a non-DAGNode argument",
+            "user subclasses: a plain subclass, class-level defaults + property, __eq__/__hash__ by name (with distinct names "
+            "only) are exercised; a subclass whose instances can be FALSY (__len__ = number of children) is excluded from C16 "
+            "because the unchanged library is wrong for it (descendants skips childless nodes through `if tree` in "
+            "preorder_iter, go_to then refuses reachable leaf targets) — reported, see the C17 strata for where it is used",
             "not exercised: ASSERTIONS switched off (BIGTREE_CONF_ASSERTIONS), user hooks (_DAGNode__pre/post_assign_*), "
             "copy()/deepcopy of a DAG before querying, __iter__/__getitem__/__delitem__ of DAGNode, more than 9 nodes",
             "queries on link structures that are not consistent acyclic DAGs are reported as failures, not modelled",
